@@ -142,6 +142,11 @@ func (ns *Namespace) ResolveName(nameNode ast.Vertex, aliasType string) (string,
 	switch n := nameNode.(type) {
 	case *ast.NameFullyQualified:
 		return concatNameParts(n.Parts), nil
+	case *ast.NameRelative:
+		if ns.Namespace == "" {
+			return concatNameParts(n.Parts), nil
+		}
+		return ns.Namespace + "\\" + concatNameParts(n.Parts), nil
 	case *ast.Name:
 		if aliasType == "const" && len(n.Parts) == 1 {
 			part := strings.ToLower(string(n.Parts[0].(*ast.NamePart).Value))
@@ -158,7 +163,13 @@ func (ns *Namespace) ResolveName(nameNode ast.Vertex, aliasType string) (string,
 		}
 		aliasName, err := ns.ResolveAlias(nameNode, aliasType)
 		if err != nil {
-			return concatNameParts(n.Parts), nil
+			if ns.Namespace == "" {
+				return concatNameParts(n.Parts), nil
+			}
+			return ns.Namespace + "\\" + concatNameParts(n.Parts), nil
+		}
+		if len(n.Parts) > 1 {
+			return aliasName + "\\" + concatNameParts(n.Parts[1:]), nil
 		}
 		return aliasName, nil
 	}
@@ -192,7 +203,11 @@ func concatNameParts(parts ...[]ast.Vertex) string {
 	str := ""
 	for _, p := range parts {
 		for _, n := range p {
-			str = str + "\\" + string(n.(*ast.NamePart).Value)
+			if str == "" {
+				str = string(n.(*ast.NamePart).Value)
+			} else {
+				str = str + "\\" + string(n.(*ast.NamePart).Value)
+			}
 		}
 	}
 	return str
